@@ -6,6 +6,7 @@ package api
 
 import (
 	"io/fs"
+	"sync"
 
 	"wa-lang.org/wa/internal/backends/compiler_wat"
 	"wa-lang.org/wa/internal/config"
@@ -55,27 +56,41 @@ func LoadManifest(vfs fs.FS, appPath string) (p *Manifest, err error) {
 	return config.LoadManifest(vfs, appPath, false)
 }
 
+// The loader and the compiler keep package-level state (the current wir module,
+// the universe scope): loading and compiling are serialized so that the API can
+// be called from several goroutines (the playground does so per request).
+var compileMu sync.Mutex
+
 // 加载程序
 // 入口 appPath 是包对应目录的路径
 func LoadProgram(cfg *config.Config, appPath string) (*Program, error) {
+	compileMu.Lock()
+	defer compileMu.Unlock()
 	return loader.LoadProgram(cfg, appPath)
 }
 
 // 加载单文件程序
 // 入口 appPath 是包对应目录的路径
 func LoadProgramFile(cfg *config.Config, filename string, src interface{}) (*Program, error) {
+	compileMu.Lock()
+	defer compileMu.Unlock()
 	return loader.LoadProgramFile(cfg, filename, src)
 }
 
 // 基于 VFS 加载程序
 // 入口 pkgPath 是包路径, 必须是 vfs.App 子包
 func LoadProgramVFS(vfs *config.PkgVFS, cfg *config.Config, pkgPath string) (*Program, error) {
+	compileMu.Lock()
+	defer compileMu.Unlock()
 	return loader.LoadProgramVFS(vfs, cfg, pkgPath)
 }
 
 // 构建 wat 目标
 func BuildFile(cfg *config.Config, filename string, src interface{}) (mainFunc string, wat, fset []byte, err error) {
-	prog, err := LoadProgramFile(cfg, filename, src)
+	compileMu.Lock()
+	defer compileMu.Unlock()
+
+	prog, err := loader.LoadProgramFile(cfg, filename, src)
 	if err != nil || prog == nil {
 		logger.Tracef(&config.EnableTrace_api, "LoadProgramFile failed, err = %v", err)
 		return "", nil, nil, err
@@ -94,7 +109,10 @@ func BuildFile(cfg *config.Config, filename string, src interface{}) (mainFunc s
 
 // 构建 wat 目标
 func BuildVFS(cfg *config.Config, vfs *config.PkgVFS, appPkg string) (wat []byte, err error) {
-	prog, err := LoadProgramVFS(vfs, cfg, appPkg)
+	compileMu.Lock()
+	defer compileMu.Unlock()
+
+	prog, err := loader.LoadProgramVFS(vfs, cfg, appPkg)
 	if err != nil || prog == nil {
 		logger.Tracef(&config.EnableTrace_api, "LoadProgramVFS failed, err = %v", err)
 		return nil, err
